@@ -187,3 +187,27 @@ add('C03', 'mask-not-advanced', ALPHA, "                    current_start +=len(
 add('C03', 'label-len-plus-1', ALPHA, "'A' + str(len(word))", "'A' + str(len(word) + 1)", 'fire', 'C03.R2')
 add('C03', 'C-inserted-before-A', GIO, "                replacement.insert(i+1,'C' + len_str)", "                replacement.insert(i,'C' + len_str)", 'fire', 'C03.R3')
 add('C03', 'C-with-wrong-length', GIO, "                len_str = replacement[i][1:]", "                len_str = replacement[i][2:]", 'fire', 'C03.R3')
+
+# ---- C07 ------------------------------------------------------------------------------------------------------
+TFI = 'lib_trainer/trainer_file_input.py'
+OFO = 'lib_trainer/omen/omen_file_output.py'
+OSCF = 'lib_scorer/omen_scorer.py'
+SGIOF = 'lib_scorer/grammar_io.py'
+OIOF = 'lib_guesser/omen/input_file_io.py'
+add('C07', 'accept-U+2029 (pinned defect)', TFI, '    if u"\\u2029" in input_password:\n        return False\n', '', 'fire', 'C07.R1')
+add('C07', 'accept-U+0085', TFI, '    if u"\\u0085" in input_password:\n        return False\n', '', 'fire', 'C07.R1')
+add('C07', 'explicit-tab-test-removed (TAB is still in the control range)', TFI, '    if "\\t" in input_password:\n        return False\n', '', 'silent')
+add('C07', 'control-range-starts-at-1', TFI, 'for invalid_hex in range (0x0,0x20):', 'for invalid_hex in range (0x0,0x1c):', 'fire', 'C07.R1')
+add('C07', 'validate-before-hex-decode', TFI, [("                # Checks to see if the password is valid\n                if not check_valid(clean_password):\n                    continue\n", ""),
+    ("                # Check for a $HEX[] encoded password    \n", "                if not check_valid(clean_password):\n                    continue\n\n                # Check for a $HEX[] encoded password    \n")], None, 'fire', 'C07.R1')
+add('C07', 'scorer-omen-locale-encoding (pinned defect)', OSCF, "        full_file_path = os.path.join(base_directory, \"Omen\", \"IP.level\")\n\n        # Open the file for reading\n        try:\n            with open(full_file_path, 'r', encoding=self.encoding) as file:", "        full_file_path = os.path.join(base_directory, \"Omen\", \"IP.level\")\n\n        # Open the file for reading\n        try:\n            with open(full_file_path, 'r') as file:", 'fire', 'C07.R2')
+add('C07', 'keyspace-locale-encoding (pinned defect)', GIO, "    with open(filename, 'r', encoding = encoding) as file:", "    with open(filename, 'r') as file:", 'fire', 'C07.R2')
+add('C07', 'scorer-grammar-ruleset-encoding (pinned defect)', SGIOF, "_load_from_file(grammar.count_base_structures, filename, 'ascii')", "_load_from_file(grammar.count_base_structures, filename, grammar.encoding)", 'fire', 'C07.R2')
+add('C07', 'guesser-literal-utf8', GIO, "        with codecs.open(filename, 'r', encoding= encoding, errors= 'surrogateescape') as file:", "        with codecs.open(filename, 'r', encoding= 'utf-8', errors= 'surrogateescape') as file:", 'fire', 'C07.R2')
+add('C07', 'omen-alphabet-written-utf8', OFO, "        with codecs.open(full_path, 'w', encoding=encoding) as alphafile:", "        with codecs.open(full_path, 'w', encoding='utf-8') as alphafile:", 'fire', 'C07.R2')
+add('C07', 'prob-written-with-format', 'lib_trainer/save_pcfg_data.py', "datafile.write(str(item[0]) + '\\t' + str(item[1])+'\\n')", "datafile.write(str(item[0]) + '\\t' + '%.6f' % item[1] + '\\n')", 'fire', 'C07.R3')
+add('C07', 'fields-swapped', 'lib_trainer/save_pcfg_data.py', "datafile.write(str(item[0]) + '\\t' + str(item[1])+'\\n')", "datafile.write(str(item[1]) + '\\t' + str(item[0])+'\\n')", 'fire', 'C07.R3')
+add('C07', 'guesser-strips-line', GIO, "                split_values = line.rstrip().split(\"\\t\")\n\n                # Sanity checking", "                split_values = line.strip().split(\"\\t\")\n\n                # Sanity checking", 'fire', 'C07.R5')
+add('C07', 'omen-reader-rstrip-whitespace', OIOF, "                line = line.rstrip('\\n\\r').split('\\t')", "                line = line.rstrip().split('\\t')", 'fire', 'C07.R5')
+add('C07', 'no-wipe-for-empty-category', 'lib_trainer/save_pcfg_data.py', "    try:\n        for root, dirs, files in os.walk(folder):", "    if not counter_list:\n        return True\n\n    try:\n        for root, dirs, files in os.walk(folder):", 'fire', 'C07.R6')
+add('C07', 'omen-prob-file-renamed-on-reader', GIO, 'full_path = os.path.join(base_directory, "Omen", "pcfg_omen_prob.txt")', 'full_path = os.path.join(base_directory, "Omen", "omen_prob.txt")', 'fire', 'C07.R7')
